@@ -50,3 +50,17 @@ package wal
 //@ func (*WAL).ListEntries
 //@   requires w != nil
 //@   call ListTokens#1 assert [same-window] $fromToken == fromToken && $max == max
+//@   call ListTokens#1 bind listed = $ret0
+//@   send walChannels.tokens#1 assert [all-listed-tokens-are-read] listed_set && $val == listed
+//@   send walChannels.count#1 assert [as-many-entries-as-tokens] listed_set && $val == len(listed)
+
+// every listed token is read (once per occurrence in the listing), entries are collected under their
+// token and handed back in the order of the token-keyed tree (token order, one entry per token)
+//@ func (*WAL).issueParallelReads
+//@   call read#1 assert [each-listed-token] $token == t && $channels == channels
+//@ func (*WAL).collectParallelResponses
+//@   call Insert#1 assert [collected-under-its-token] len($1) == len(e.Token)
+//@   only Insert 1
+//@ func (*WAL).collectParallelResponses$1
+//@   call append#1 assert [every-collected-entry-in-tree-order] $1[0] == deref(entry)
+//@   send channels.entries#1 assert [all-of-them] $val == entries
